@@ -331,7 +331,7 @@ def name_groups(seed, pool, count):
             names = list(dict.fromkeys([stem + "." + p for p in rnd.sample(NAME_PARTS, 3)] + ([stem + "_x"] if rnd.random() < 0.3 else [])))
         else:
             names = [full] + ([".".join([base] + parts[:-1])] if rnd.random() < 0.5 else []) + [full]
-        o1 = rnd.random() < 0.08          # relative directory part (observation O1 of design/C20.md)
+        o1 = rnd.random() < 0.15          # relative directory part (observation O1 of design/C20.md)
         ents, prev = [], None
         for nm in names:
             circ = replaced(prev, rnd) if (prev is not None and prev[0] > 0 and rnd.random() < 0.5) else list(rnd.choice(pool))
@@ -434,7 +434,8 @@ def evaluate_names(ctx, harness, driver, glines, workdir):
         if len(mp) != 4:
             r["model_error"] = model[k]
             mp = ["<model failed: %s>" % model[k], "ERR", "0", ""]
-        asgiven = (dg + "/" + given) if mode == 1 else given
+        # the exporter lists its files relative to the directory of the .aux (fix F27): the last component of the name as given
+        asgiven = os.path.basename(given)
         sub = lambda files: "|".join([f.replace("cn%s_%d." % (gid, e), asgiven + ".") if j == 0 else f for j, f in enumerate(files.split("|"))])
         hp = mp[0].rsplit(" # ", 1)
         r["m_files"] = sub(hp[0]) + (" # " + hp[1] if len(hp) == 2 else "")
@@ -561,11 +562,9 @@ def run(ctx):
             hp_mism.append((l, ihp, mhp))
         # ---- reader: real coloquinte.py vs model
         if r.get("o1") and r["py"].startswith(O1_MSG):
-            # observation O1 (design/C20.md): a relative name WITH a directory part is written into the .aux as given and the reader
-            # resolves it against the directory of the .aux once more; a refusal with exactly this message is tolerated for exactly
-            # these names (a circuit that does come back is compared like any other)
+            # finding F27 (fixed in /repo; design/C20.md): a relative name WITH a directory part was written into the .aux as given and
+            # the reader resolved it against the directory of the .aux once more. Counted; it is a violation like any other refusal.
             ninfo["O1_relative_directory_part_refused_by_reader"] += 1
-            continue
         pyr = r["py"] if r["py"].startswith("R ") else "ERR"
         if r["py"].startswith("ERR"):
             dist["reader_refusals"] += 1
@@ -691,8 +690,7 @@ def replay(ctx, path):
             print("   files :", rec["impl"][:400])
             print("   python:", rec["py"][:400])
             if rec.get("o1") and rec["py"].startswith(O1_MSG):
-                print("   (observation O1: tolerated)")
-                continue
+                print("   (finding F27: the export path prefix is in the .aux again)")
             if rec["impl"].rsplit(" # ", 1)[0] != rec["m_files"].rsplit(" # ", 1)[0]:
                 print("   files differ from the model:", first_diff(rec["impl"].rsplit(" # ", 1)[0], rec["m_files"].rsplit(" # ", 1)[0])); bad = True
             if (rec["py"] if rec["py"].startswith("R ") else "ERR") != rec["m_read"]:
